@@ -62,6 +62,10 @@ def sweep(db, dbname, proj, events, rng, thorough, rep, light=False):
             # values at and next to the unit's own image of the base zero (affine offsets)
             vals[u] = sorted(set(VALUES + ([] if z == 0 else [z, z - 1.0, z + 1.0, -z])))
         pairs = [(u, w) for u in units for w in units if not light or u == w or u == base or w == base]
+        cats_by_qt, dcat = {}, {}
+        for ci_ in proj.get("cats", []):
+            cats_by_qt.setdefault(ci_["qt"], []).append(ci_["cat"])
+            dcat[ci_["cat"]] = db.GetDefaultUnit(ci_["cat"])
         # a history before the measurements: the 'Unknown' quantity type accepts any unit labels (by design) and returns the value
         # unchanged; asking it for one direction of some pairs must not influence the conversions of the real quantity type
         if "Unknown" in byqt and qt != "Unknown":
@@ -141,6 +145,21 @@ def sweep(db, dbname, proj, events, rng, thorough, rep, light=False):
                 for i in idx:
                     comp = conv(qt, v, w, mid[i])
                     worst_path = max(worst_path, ppt(abs(ys[i] - comp), max(abs(ys[i]), s1)))
+            # the scalar path of a value object, for every category of the quantity type whose default unit is the target
+            for c_ in cats_by_qt.get(qt, ()):
+                if dcat.get(c_) == w and u != w:
+                    try:
+                        from barril.units import Scalar, UnitDatabase
+                        UnitDatabase.PushSingleton(db)
+                        try:
+                            for x, y in list(zip(vals_u, ys))[1::3]:
+                                g_ = Scalar(c_, x, u).GetValue(w)
+                                if ppt(abs(g_ - y), max(abs(y), zero_of[(u, w)])) > 1000:
+                                    same_exact = False
+                        finally:
+                            UnitDatabase.PopSingleton()
+                    except Exception:  # noqa
+                        same_exact = False
             events.append({"op": "Pair", "db": dbname, "qt": qt, "u": u, "v": w, "rt_ppt": worst_rt,
                            "same_exact": same_exact, "inversions": inversions, "spans": spans,
                            "path_ppt": worst_path, "spell_ppt": worst_spell, "pivots": len(pivots), "nvals": len(vals_u)})
